@@ -163,7 +163,7 @@ def gen(rng):
     n_conn, pid, tagn = 0, 0, 0
     fail = False
 
-    def connect(u, p, force_am=None):
+    def connect(u, p, force_am=None, noam=False):
         """one CONNECT attempt; through `conn` when the bytes fit its token syntax, otherwise dial + raw.
         returns (name, version, the script's own expectation)"""
         nonlocal n_conn
@@ -175,7 +175,7 @@ def gen(rng):
         am = ad = None
         if force_am is not None:
             v, am, ad = 5, force_am, rng.choice([None, None, b"go", b"c"])
-        elif v == 5 and rng.random() < 0.35:
+        elif v == 5 and not noam and rng.random() < 0.35:
             # b"" = the Authentication Method property PRESENT with a zero-length value (0x15 0x00 0x00): still "a method"
             am = rng.choice([b"M", b"M", b"SCRAM", b"M", b"", b""])
             ad = rng.choice([b"go", b"zz", b"go", None] + ([b"c", b"c"] if rng.random() < 0.2 else []))
@@ -306,6 +306,26 @@ def gen(rng):
             for u, p in [(None, None), (b"nobody", b"x"), (valid[0], valid[1] + b"!"), valid]:
                 if rng.random() < 0.75:
                     connect(u, p, force_am=b"")
+        elif r < 0.74 and accts and not fail:
+            # stale credentials: an account that has just been used successfully is deleted, re-created and/or given another
+            # password through the account API; the NEXT CONNECT is judged by what is stored now — whatever the plugin
+            # remembers about earlier logins must not outlive the account (seed C19-3)
+            u = rng.choice(sorted(accts)); p1 = accts[u]
+            for _ in range(rng.choice([1, 1, 2])):
+                connect(u, p1, noam=True)
+            how = rng.choice(["del", "del+set", "del+set", "set"])
+            p2 = rng.choice([x for x in PWS[:6] if x != p1])
+            if how != "set":
+                ops.append(f"api acct del {tok(u)}"); accts.pop(u, None)
+            if how != "del":
+                ops.append(f"api acct set {tok(u)} {tok(p2)}")
+                if not (alg == "bcrypt" and len(p2) > 72):
+                    accts[u] = p2
+            fileacc = dict(accts)
+            connect(u, p1, noam=True)
+            if how != "del" and rng.random() < 0.7:
+                connect(u, p2, noam=True)
+                connect(u, p1, noam=True)
         else:
             # a CONNECT: valid, near miss, or unknown
             if accts and rng.random() < 0.85:
